@@ -455,6 +455,8 @@ def rule_P9(ctx: Ctx) -> None:
 
 RULES = [
     Rule("C03.P9", rule_P9, floor=1, doc="bounded semantic check: every draw of generate_random_path honours the endpoint options"),
+    Rule("C03.P10", lambda ctx: __import__("sa.rules.c18", fromlist=["x"]).rule_H2(ctx), floor=5,
+         doc="the endpoint options reach generation through load(cfg.serialize()): the configuration's field loaders keep every option (C18.H2 re-judged)"),
     Rule("C03.P8", rule_P8, floor=3, doc="the component endpoints are drawn from lists every reachable cell once (C13.V2 re-judged)"),
     Rule("C03.P1", rule_P1, floor=2, doc="pipeline dataflow"),
     Rule("C03.P2", rule_P2, floor=2, doc="every path ends in the solver on component endpoints"),
